@@ -211,7 +211,7 @@ type world struct {
 
 func (w *world) fail(class, msg string) {
 	w.failures++
-	txt := strings.Join(w.sc.decls(), "; ")
+	txt := w.sc.dump()
 	if len(txt) > 6000 {
 		txt = txt[:6000] + "…"
 	}
@@ -1214,7 +1214,12 @@ func Run(cfg hx.Config) error {
 	rnd := hx.NewRand(cfg.Seed)
 	before := runtime.NumGoroutine()
 	idx := 0
-	for _, sc := range fixedScenarios() {
+	corpus, names, err := loadCorpus(cfg.Corpus)
+	if err != nil {
+		return err
+	}
+	r.Notes["corpus"] = len(names)
+	for _, sc := range append(corpus, fixedScenarios()...) {
 		if !runScenario(r, cfg.Seed, idx, sc) {
 			break
 		}
